@@ -137,8 +137,14 @@ def check(ctx):
                     bad = True
                     break
                 g = np.ravel(post.gradient_logpdf(x))
-                h = 1e-6
-                num = np.array([(float(np.ravel(post.logpdf(x + h * e))[0]) - float(np.ravel(post.logpdf(x - h * e))[0])) / (2 * h) for e in np.eye(d)])
+                # central differences at several step sizes: in the deep tail (|z| ~ 100, tiny predictive variance) the smallest step is
+                # dominated by rounding noise of the prediction and the largest by curvature; the analytic gradient has to agree with ONE
+                # of them (a wrong formula is off by percents at every step size)
+                nums = []
+                for h in (1e-6, 1e-5, 1e-4):
+                    nums.append(np.array([(float(np.ravel(post.logpdf(x + h * e))[0]) - float(np.ravel(post.logpdf(x - h * e))[0])) / (2 * h) for e in np.eye(d)]))
+                h = 1e-4
+                num = min(nums, key=lambda v: float(np.max(np.abs(v - g))) if np.all(np.isfinite(v)) and np.all(np.isfinite(g)) else float('inf'))
                 if not np.all(np.isfinite(g)) and math.isfinite(lp):
                     ctx.fail_input(where, 'gradient_logpdf is %s at a point inside the bounds where logpdf = %r is finite (derivative ~ %s)' % (g.tolist(), lp, num.tolist()), num.tolist(), [str(v) for v in g])
                     bad = True
